@@ -13,6 +13,7 @@ DOC = {
                    'translator can emit begins with a character in the scanner\'s stop set, and ordinary characters are escaped (R3); case folding is applied to the prefix '
                    'iff it is applied to the candidate (R4).',
     'rules': {
+        'C16.R14': 'when the partial match is decided by an automaton (regex-automata lazy DFA): it is built in Regex::new from the same expression and with the same options (case, dot-matches-newline) as the regex that decides the full match; it is started anchored; the bytes of the candidate are fed from its beginning, in order (stopping early is allowed, skipping is not); `false` is returned only from the dead state (no continuation can match) and every undecidable situation - no automaton, cache error, quit state - answers `true`',
         'C16.R1': 'regex.rs: Chars::take(n) never receives a byte length; no string is sliced by a character count',
         'C16.R2': 'get_fixed_prefix: the escape flag set on a backslash is cleared when the next character is consumed',
         'C16.R3': 'every string fragment glob_to_regex emits for an operator starts with a character of the stop set (magic_chars + {?,*}); literal characters go through escape()',
@@ -35,10 +36,18 @@ DOC = {
 @register('C16', DOC)
 def run(ctx):
     lib = ctx.lib
-    r1(ctx, lib)
-    r2(ctx, lib)
-    r3(ctx, lib)
-    r4(ctx, lib)
+    auto = automaton_shape(lib)
+    r1(ctx, lib, floor=0 if auto else 2)
+    if auto:
+        # the fixed-prefix text and everything that had to agree with it (escape flag, stop set, case folding of both sides, optional makers) is gone
+        m_ = lib.body('regex::Regex::is_partial_match')
+        for rid in ('C16.R2', 'C16.R12'):
+            ctx.ok(rid, 'regex::Regex::is_partial_match|automaton', m_.where(), 'not applicable: there is no fixed-prefix scanner, the partial match is decided by the automaton of the expression (C16.R14)')
+        r14(ctx, lib)
+    else:
+        r2(ctx, lib)
+    r3(ctx, lib, auto)
+    r4(ctx, lib, auto)
     r5(ctx, lib)
     r6(ctx, lib)
     r7(ctx, lib)
@@ -47,14 +56,15 @@ def run(ctx):
     r9(ctx, lib)
     r10(ctx, lib)
     r11(ctx, lib)
-    r12(ctx, lib)
+    if not auto:
+        r12(ctx, lib)
     r13(ctx, lib)
     if ctx.tier == 'thorough' and not getattr(ctx, 'sibling', None):
         from .. import sweep
         sweep.units(ctx, 'C16.R1')
 
 
-def r1(ctx, lib):
+def r1(ctx, lib, floor=2):
     rule = 'C16.R1'
     n = 0
     for b in lib.bodies.values():
@@ -72,7 +82,9 @@ def r1(ctx, lib):
                 u, cs = unit_of(b, o)
                 n += 1
                 ctx.check(u not in ('CHARS', 'MIXED'), rule, '%s|slice' % b.path, c.where(), 'string sliced by %s' % (u or 'constant'), 'string sliced by a character count')
-    ctx.floor(rule, 'Chars::take / slicing sites in regex.rs, pattern.rs, selector.rs', n, 2)
+    ctx.floor(rule, 'Chars::take / slicing sites in regex.rs, pattern.rs, selector.rs', n, floor)
+    if floor == 0 and n == 0:
+        ctx.ok(rule, 'regex.rs|no-sites', '-', 'no Chars::take / string slicing left in regex.rs, pattern.rs, selector.rs')
 
 
 def r2(ctx, lib):
@@ -114,9 +126,78 @@ def r2(ctx, lib):
               'the fixed prefix swallows wildcards (e.g. `1\\.2/.*/f` -> prefix "1.2/.*/f") and directories that contain matches are pruned')
 
 
-def r3(ctx, lib):
+def automaton_shape(lib):
+    """partial matching is decided by feeding the candidate to an automaton of the expression (no fixed-prefix text)"""
+    m = lib.body('regex::Regex::is_partial_match')
+    return m is not None and bool(m.calls(r'dfa::DFA::next_state$')) and lib.body('regex::Regex::get_fixed_prefix') is None
+
+
+def r14(ctx, lib):
+    """Partial match by automaton: same expression and options as the matcher, anchored, every byte fed, `false` only in the dead state."""
+    rule = 'C16.R14'
+    n = ctx.need_body(rule, 'regex::Regex::new')
+    m = ctx.need_body(rule, 'regex::Regex::is_partial_match')
+    if n is None or m is None:
+        return
+    P = m.path
+    # (a) the automaton is built from the same expression and the same options as the regex that decides the full match
+    bd = n.calls(r'dfa::Builder::build$|dfa::DFA::new$')
+    rb = n.calls(r'RegexBuilder::new$')
+    if ctx.floor(rule, 'automaton / regex builders in Regex::new', min(len(bd), len(rb)), 1, n.where()):
+        same_re = backslice(n, [bd[0].args[-1]]).params == backslice(n, [rb[0].args[0]]).params == {1}
+        ctx.check(same_re, rule, n.path + '|same-expression', bd[0].where(), 'the automaton is built from the expression the regex is built from', 'the automaton and the regex are built from different expressions')
+        opts = {}
+        for side, rx in (('regex', r'RegexBuilder::(case_insensitive|dot_matches_new_line|multi_line|unicode|swap_greed|ignore_whitespace|crlf)$'),
+                         ('automaton', r'syntax::Config::(case_insensitive|dot_matches_new_line|multi_line|unicode|swap_greed|ignore_whitespace|crlf)$')):
+            d = {}
+            for c in n.calls(rx):
+                a = c.args[1]
+                sl = backslice(n, [a])
+                d[c.path.rsplit('::', 1)[-1]] = ('param:%s' % sorted(n.local_name(p_) for p_ in sl.params)) if sl.params else str(const_bool(a))
+            opts[side] = d
+        ctx.check(opts['regex'] == opts['automaton'] and bool(opts['regex']), rule, n.path + '|same-options', bd[0].where(), 'both are configured alike (%s)' % opts['regex'],
+                  'the regex and the automaton are configured differently (%s vs %s): a candidate the automaton rejects can be the beginning of a path the regex matches (e.g. only one of them folds the '
+                  'case, or `.` crosses a newline in only one of them), and the directory is pruned' % (opts['regex'], opts['automaton']))
+    # (b) anchored search over the whole candidate
+    anch = [st for blk in m.blocks for st in blk['stmts'] if st['rv']['k'] == 'agg' and st['rv'].get('adt', '').endswith('regex_automata::Anchored')]
+    ctx.check(any(st['rv'].get('variant') == 'Yes' for st in anch) and all(st['rv'].get('variant') == 'Yes' for st in anch), rule, P + '|anchored', m.where(), 'the automaton is started anchored at the beginning of the candidate',
+              'the automaton is not started anchored: it would look for the expression anywhere in the candidate')
+    nx = m.calls(r'dfa::DFA::next_state$')
+    it = m.calls(r'str::<impl str>::as_bytes$|str::<impl str>::bytes$')
+    # (feeding only a beginning of the candidate is sound - the answer gets more conservative; feeding anything that is not a prefix of it is not)
+    lim = m.calls(r'Iterator::(skip|step_by|skip_while|filter|filter_map|rev|map)$|slice.*::(split_at|last|split_off)$')
+    fed = bool(nx) and bool(it) and 2 in backslice(m, [it[0].args[0]]).params and any(k.bb == it[0].bb for k in backslice(m, [nx[0].args[-1]]).calls) and not lim
+    ctx.check(fed, rule, P + '|every-byte-fed', (nx[0].where() if nx else m.where()), 'the bytes of the candidate are fed to the automaton from the beginning, in order', 'what is fed to the automaton is not a prefix of the candidate (bytes skipped, filtered, mapped or reversed)')
+    # (c) `false` only in the dead state; everything that cannot be decided answers `true`
+    falses = [(bi, st) for bi, blk in enumerate(m.blocks) if not blk['cleanup'] for st in blk['stmts'] if st['p'][0] == 0 and not st['p'][1] and const_bool(st['rv'].get('op', {})) is False]
+    dead = m.calls(r'LazyStateID::is_dead$|StateID::is_dead$|is_dead_state$')
+    ok = bool(dead) and bool(falses)
+    for bi, st in falses:
+        good = False
+        for dc in dead:
+            for (bbx, idx, what) in m.operand_uses(dc.dest[0]):
+                if what[0] == 'switch':
+                    tt, ft = switch_targets_bool(what[1])
+                    if tt is not None and (tt == bi or m.dominates(tt, bi)) and not m.dominates(ft, bi):
+                        good = True
+        ok = ok and good
+    nonconst = [st for blk in m.blocks if not blk['cleanup'] for st in blk['stmts'] if st['p'][0] == 0 and not st['p'][1] and const_bool(st['rv'].get('op', {})) is None]
+    ctx.check(ok and not nonconst, rule, P + '|false-only-when-dead', (m.where(falses[0][1]['line']) if falses else m.where()), '`false` is returned only from the dead state of the automaton; a missing automaton, a full cache or a quit state answer `true`',
+              'is_partial_match can answer `false` without the automaton being in its dead state: a directory that may contain matching paths is pruned')
+    # the state that is tested is the one the last byte led to
+    if dead and nx:
+        ctx.check(nx[0].dest[0] in backslice(m, [dead[0].args[0]]).locals or any(k.bb == nx[0].bb for k in backslice(m, [dead[0].args[0]]).calls), rule, P + '|state-tested', dead[0].where(),
+                  'the tested state is the successor state', 'the dead-state test is not applied to the state reached by next_state')
+
+
+def r3(ctx, lib, auto=False):
     rule = 'C16.R3'
     g = ctx.need_body(rule, 'pattern::Pattern::glob_to_regex')
+    if auto:
+        if g is not None:
+            esc_calls = sum(len(lib.body(cp).calls(r'regex::escape$|regex_syntax::escape$')) for cp in lib.closures_of(g.path)) + len(g.calls(r'regex::escape$'))
+            ctx.check(esc_calls >= 2, rule, g.path + '|literals-escaped', g.where(), 'literal and escaped characters pass through regex::escape (%d sites)' % esc_calls, 'literal characters are not escaped')
+        return
     f = ctx.need_body(rule, 'regex::Regex::get_fixed_prefix')
     if g is None or f is None:
         return
@@ -166,11 +247,17 @@ def r3(ctx, lib):
     ctx.check(bs, rule, f.path + '|backslash', f.where(), 'the scanner recognises the backslash', 'the scanner does not treat the backslash specially')
 
 
-def r4(ctx, lib):
+def r4(ctx, lib, auto=False):
     rule = 'C16.R4'
     n = ctx.need_body(rule, 'regex::Regex::new')
     m = ctx.need_body(rule, 'regex::Regex::is_partial_match')
     if n is None or m is None:
+        return
+    if auto:
+        # case folding of the candidate is the automaton's business (C16.R14 same-options); the builder of the regex still gets the flag
+        ci = n.calls(r'RegexBuilder::case_insensitive$')
+        ok = bool(ci) and any(n.local_name(l) == 'case_insensitive' for l in backslice(n, [ci[0].args[1]]).locals)
+        ctx.check(ok, rule, n.path + '|builder-flag', n.where(), 'the regex itself is built with the same case flag', 'the regex is not built with the case flag')
         return
     def lower_guard(b, flag_is_param):
         lc = b.calls(r'str::<impl str>::to_lowercase$')
